@@ -15,7 +15,8 @@ SPEC = dict(
          '(h:<s0>.<op>.<op>...). Oracle after EVERY operation: every live signature serializes to exactly the bytes it was created with (parsed bytes; clone = source; '
          'derived signature = its first serialization); every verdict (return code, finalResult.resultCode, errorCode) and every derivation (return code, bytes of the '
          'derived signature) equals the result of the same call on a FRESH context with a freshly parsed copy (tabulated lazily, cache keyed by signature bytes and '
-         'parameters); garbage must be refused; the context\'s last-failed signature must stay serializable; at the end no SDK allocation may stay live; ASan/UBSan silent.',
+         'parameters); garbage must be refused; the context\'s last-failed signature must stay serializable; at the end no SDK allocation may stay live; ASan/UBSan silent. '
+         'Further: operation getters (caller-owned results released as documented, hash pool exercised); canonical signatures carry a legacy-id and a metadata link; the one-call prepend form at start level 0.',
     bounds=dict(quick='all applicable sequences of <= 2 operations after parse(s0) over the full alphabet (37 324 histories) + all of exactly 3 operations over the '
                       '30-letter sub-alphabet that touches caches and state (24 203 histories)',
                 thorough='all applicable sequences of <= 3 operations after parse(s0) over the full alphabet (4 115 332 histories) + all of exactly 4 operations over the '
